@@ -383,6 +383,81 @@ def rule_response_masking(ctx, cfg='prod-all'):
     yield Ob('RF-H', 'cl03#response-census', total >= 16, 'response sites discovered in the four sigma-protocol provers', '', fact=total, expected='>= 16', nontrivial=False)
 
 
+RANGE_GEN_FNS = ['cl03::range_proof::Boudot2000RangeProof::proof_same_secret', 'cl03::range_proof::Boudot2000RangeProof::proof_large_interval_specific']
+
+
+def rule_range_proof_challenge_length(ctx, cfg='prod-all'):
+    """Boudot's sub-proofs size their masks as `rand_int(.., 2^(l + t [+ s]) * bound - 1)`: `t` bits of every mask pay for the challenge, which
+    the paper takes modulo 2^t.  A response `mask + challenge * secret` whose challenge is the whole 256-bit digest is masked 256 - t bits too
+    short: floor(response / challenge) is the secret (up to a few units).  Decided per response of the range-proof provers: the factor that
+    comes from the digest passes a reduction (`% 2^t`) before it multiplies the secret, whenever the mask formula contains t."""
+    prog, za, eng = ctx.prog(cfg), ctx.zone(cfg), ctx.eng(cfg)
+    n = 0
+    for fn in RANGE_GEN_FNS:
+        b = prog.bodies.get(fn)
+        if b is None:
+            raise AnchorMissing(fn)
+        za.summary(fn)
+        zf = za.zf(fn)
+        fd = zf.fd
+        kt = b.param_index('t')
+
+        def digest_factor(op, depth=0):
+            """'raw' / 'reduced' when the operand is (a reduction of) an integer read from a digest"""
+            if op.get('k') not in ('copy', 'move') or depth > 6:
+                return None
+            oc = origin_call(zf, op['pl']['l'])
+            if oc is None:
+                return None
+            cal = oc.get('callee') or ''
+            if cal.endswith('Integer::from_digits'):
+                return 'raw'
+            if cal == 'std::ops::Rem::rem' and oc['args']:
+                inner = digest_factor(oc['args'][0], depth + 1)
+                return 'reduced' if inner else None
+            if cal in PASS and oc['args']:
+                return digest_factor(oc['args'][0], depth + 1)
+            return None
+
+        def mask_counts_t(op, depth=0):
+            """the mask comes from rand_int whose upper end is computed from a power of two whose exponent depends on parameter t"""
+            if op.get('k') not in ('copy', 'move') or depth > 4 or kt is None:
+                return False
+            oc = origin_call(zf, op['pl']['l'])
+            if oc is None:
+                return False
+            if (local_target(eng, oc) or '').endswith('rand_int') and len(oc['args']) == 2:
+                return any(strip(a)[0] == 'p' and strip(a)[1] == kt for a in fd.read_op(oc['args'][1]))
+            if (oc.get('callee') or '') in PASS and oc['args']:
+                return mask_counts_t(oc['args'][0], depth + 1)
+            return False
+
+        for bi, t in b.calls():
+            if (t.get('callee') or '') != 'std::ops::Add::add' or len(t['args']) != 2:
+                continue
+            for mask, prod in ((t['args'][0], t['args'][1]), (t['args'][1], t['args'][0])):
+                if prod.get('k') not in ('copy', 'move'):
+                    continue
+                pc = origin_call(zf, prod['pl']['l'])
+                if pc is None or (pc.get('callee') or '') != 'std::ops::Mul::mul' or len(pc['args']) != 2:
+                    continue
+                kinds = [digest_factor(a) for a in pc['args']]
+                if not any(kinds) or not mask_counts_t(mask):
+                    continue
+                n += 1
+                nm = b.local_name(t['dst']['l'])
+                if nm.startswith('_'):
+                    for bj, s2 in b.stmts():
+                        if s2['k'] == 'assign' and s2['rv']['k'] == 'use' and s2['rv']['op']['k'] in ('copy', 'move') and s2['rv']['op']['pl']['l'] == t['dst']['l'] \
+                                and b.locals[s2['dst']['l']].get('name'):
+                            nm = b.locals[s2['dst']['l']]['name']
+                kind = [k for k in kinds if k][0]
+                yield Ob('RF-H', '%s#challenge-length:%s' % (fn, nm), kind == 'reduced',
+                         'the mask of the response provides t bits for the challenge: the challenge that multiplies the secret is the digest reduced modulo 2^t, not the whole digest',
+                         '%s L%s' % (b.file(), t.get('line')), fact={'challenge_factor': kind, 'response': nm}, expected='reduced modulo 2^t')
+    yield Ob('RF-H', 'cl03#range-proof-responses', n >= 3, 'responses of the range-proof provers examined', '', fact=n, expected='>= 3', nontrivial=False)
+
+
 # ---------------------------------------------------------------------------------------- C18
 def _loops_with_call(body, eng, suffix):
     out = []
